@@ -112,6 +112,28 @@ N={
  'C16-f':("rhp/v4/rpc.go RPCFormContract inspects TransactionSet[0] instead of the last transaction","a formation whose renter inputs are unconfirmed (set = [parent, formation])"),
  'C18-f':("syncer/syncer.go subnetKey no longer masks the remote IP to the configured prefix","peers with different addresses inside one configured subnet (IPv4 prefix shorter than /32)"),
  'C18-g':("syncer/syncer.go acceptLoop's per-connection goroutine no longer registers with the thread group","Close while an inbound connection is mid-handshake"),
+ 'C02-e':("chain/db.go MemDB.delete drops a pending put without recording a tombstone when the key is also committed","within one flush window a committed key is deleted, re-put and deleted again (a reorg batch confirming T again and spending its output)"),
+ 'C02-f':("chain/db.go revertElements writes the tree nodes only when an element was restored; reverting a bare v1 revision leaves stale leaf hashes","a block whose only change to existing elements is a fee-less v1 contract revision, reverted by a reorg"),
+ 'C03-g':("chain/db.go deleteFileContractExpiration edits the slice returned by the database in place (no copy)","two contracts sharing a window end, removal of a non-last entry, and a stop before the next commit on a database that lives in the process's memory"),
+ 'C03-h':("chain/db.go NewDBStore writes the version marker only after the genesis ApplyBlock (which commits by itself)","a stop right after the first commit of a fresh database"),
+ 'C04-g':("chain/manager.go UpdatesSince yields the manager lock every 64 collected updates","a poll collecting more than 64 updates while a concurrent AddBlocks reorgs below the point the walk has reached"),
+ 'C04-h':("chain/manager.go reorgTo flushes only when blocks were reverted: plain extensions wait for the periodic commit","blocks arriving as pure extensions, a subscriber that polled them, a crash inside the commit window, restart"),
+ 'C05-g':("chain/manager.go eviction ranks by fee x weight instead of fee / weight","a full pool holding transactions of different weights"),
+ 'C05-h':("chain/manager.go updateTxnProofs updates a loop copy of the file contract resolutions (same site as C13-f, seen from the pool)","a pooled v2 resolution while unrelated blocks change the contract element's proof path"),
+ 'C06-g':("wallet/update.go appliedEvents ranges over ValidProofOutputs when attributing a MISSED v1 contract","an expired v1 contract whose missed outputs pay other addresses than its valid outputs at the same positions"),
+ 'C06-h':("wallet/update.go proofs of the wallet's outputs are updated once per batch with the deepest revert only","a reorg of >=2 blocks delivered in one chunk, a reverted block other than the deepest modifying an element near a surviving wallet output"),
+ 'C11-f':("syncer/parallel_sync.go the list of suppliers is reset for every finish group: the honest supplier of the reorg-triggering chunk is banned","a Byzantine peer's invalid block in an earlier stored-only chunk, an honest peer supplying the later chunk"),
+ 'C12-e':("syncer/syncer.go addPeer's inbound re-check counts all peers: an accepted connection within the caps is silently dropped","a node with a small inbound cap that also holds outbound connections, the dropped edge being a bridge to the heaviest chain"),
+ 'C13-g':("chain/manager.go updateV2TransactionProofs returns early for from == to before validating the proofs","a corrupted proof with the tip itself as basis (V2TransactionSet / UpdateV2TransactionSet)"),
+ 'C13-h':("chain/manager.go updateV2TransactionProofs substitutes an empty supplement for unvalidated v2 blocks instead of refusing","a target on a stored-but-never-applied side branch"),
+ 'C14-g':("chain/manager.go PoolTransactions returns slices.Clip of the pool's own list","the caller reorders the returned list in place"),
+ 'C14-h':("chain/manager.go AddPoolTransactions snapshots the rollback extent before the lazy revalidation","a block confirming pooled transactions, then - with no pool operation in between - a set conflicting with the pool after some fresh transactions"),
+ 'C17-g':("chain/db.go cacheBucket.Get treats a pending zero-length value as absent","Put(k, non-empty)+Flush, Put(k, empty) through the CacheDB, Get before the next Flush"),
+ 'C17-h':("chain/db.go CacheDB.Cancel no longer cancels the wrapped database","a bucket created through the CacheDB in a session that is then cancelled"),
+ 'C19-g':("chain/manager.go BlocksForHistory: only the last block of the range decides whether a missing body is an error","PruneBlocks(P) mid-chain, then a request whose range straddles P"),
+ 'C19-h':("chain/manager.go computeMedianFee loses the empty-sample guard","a prune height beyond the tip with the fee cache invalid, then RecommendedFee"),
+ 'C20-g':("wallet/seed.go encodeBIP39Phrase joins into a fixed 96-byte buffer (forgetting the 11 spaces)","an entropy whose phrase is longer than 96 characters"),
+ 'C20-h':("wallet/seed.go KeyFromSeed wipes the caller's seed","two derivations from the same seed variable"),
  'C19-a':("chain/manager.go PruneBlocks walks upwards from genesis and breaks on the first missing body","prune at h1>=1, then prune again at h2>h1"),
  'C19-b':("chain/manager.go MinReorgIndex checks Header instead of Block","PruneBlocks mid-chain, then a heavier fork with fork point at the reported index"),
  'C20-a':("wallet/seed.go decodeBIP39Phrase never checks the 12th word against the word list (reads as index 0)","11 valid words followed by an unknown token where the same 11 words plus 'abandon' have a valid checksum (1 in 16)"),
@@ -148,6 +170,18 @@ H={'C02-a':"missed by the first version of C02 (all workloads used distinct wind
  'C04-e':"a crash-consistency change: decided by C03 (reopen at every commit), not visible to C04's in-process subscribers",
  'C01-e':"missed by construction at first (all generated networks had Oak at height 1); the Oak-boundary scenario (Oak at 500, chains and reorgs crossing it) was added",
  'C15-f':"decided by C08 (commit-on-stale-lock and the refused-contender pattern); C15's own workload did not contain a paused funding RPC at that time",
+ 'C03-g':"missed at first (images were deep copies made at each commit); the stop-before-commit scenario on the same in-memory database and crash attribution for store code were added",
+ 'C03-h':"missed at first (the flush hook was installed after the store had initialised); commits during initialisation are now commit points",
+ 'C04-g':"missed at first (no poll ever collected more than 64 updates); long walks against deep reorgs added",
+ 'C04-h':"a crash-consistency change: decided by C03",
+ 'C05-g':"missed at first (uniform weights in the pool-full scenario); weights now differ by three orders of magnitude",
+ 'C06-g':"missed at first (generated v1 contracts paid missed outputs to the same addresses as valid ones); generator extended",
+ 'C12-e':"missed at first; tight-inbound-cap topologies and the accepted-connection-dropped check added",
+ 'C13-g':"missed at first; exposed the from == to shortcut of UpdateV2TransactionSet on the unchanged tree (F-C13-3, fixed); corrupted inputs are now also sent through V2TransactionSet at the tip",
+ 'C13-h':"missed at first (targets were restricted to applied indices); targets on a stored-but-never-applied branch added (refusal or a correct result)",
+ 'C14-h':"missed at first; query-free twin added (a submission as the first pool operation after a block)",
+ 'C19-h':"missed at first; services reading stored blocks are probed right after each prune",
+ 'C17-g':"caught after present-but-empty values were added to the alphabet (added while this seed was queued)",
  'C18-b':"missed at first; stalled partial requests at every stage against Close added"}
 rows=[]
 for d in sorted(glob.glob('/verif/seeded/*')):
